@@ -39,6 +39,8 @@ pub fn hex(s: &[u8]) -> String {
 
 struct Case {
     name: String,
+    /// the case directory (<base>/cN): origin of `@BASE@` and parent of `ext`
+    top: PathBuf,
     root: PathBuf,
     db: FixtureDatabase,
     texts: HashMap<String, Vec<u8>>,
@@ -49,11 +51,17 @@ impl Case {
     fn abs(&self, rel: &str) -> PathBuf {
         if rel == "." {
             self.root.clone()
+        } else if let Some(x) = rel.strip_prefix("@EXT/") {
+            // a location outside the workspace (sibling `ext` of the case directory)
+            self.top.join("ext").join(x)
         } else {
             self.root.join(rel)
         }
     }
     fn rel(&self, p: &Path) -> String {
+        if let Ok(r) = p.strip_prefix(self.top.join("ext")) {
+            return format!("@EXT/{}", r.to_string_lossy());
+        }
         match p.strip_prefix(&self.root) {
             Ok(r) => {
                 let s = r.to_string_lossy().to_string();
@@ -517,10 +525,12 @@ fn main() {
                     let _ = std::fs::remove_dir_all(base.join(format!("c{}", ncase)));
                 }
                 ncase += 1;
-                let root = base.join(format!("c{}", ncase)).join("ws");
+                let top = base.join(format!("c{}", ncase));
+                let root = top.join("ws");
                 let _ = std::fs::create_dir_all(&root);
                 cur = Some(Case {
                     name: t.get(1).unwrap_or(&"?").to_string(),
+                    top,
                     root,
                     db: FixtureDatabase::new(),
                     texts: HashMap::new(),
@@ -531,8 +541,7 @@ fn main() {
                 // relocate the workspace root of this case: <base>/cN/<prefix>/ws
                 if let Some(c) = cur.as_mut() {
                     let _ = std::fs::remove_dir_all(&c.root);
-                    let top = c.root.parent().unwrap().to_path_buf();
-                    c.root = top.join(t[1]).join("ws");
+                    c.root = c.top.join(t[1]).join("ws");
                     let _ = std::fs::create_dir_all(&c.root);
                 }
             }
@@ -553,7 +562,13 @@ fn main() {
             "disk" => {
                 if let Some(c) = cur.as_mut() {
                     let p = c.abs(t[1]);
-                    let body = c.texts.get(t[2]).cloned().unwrap_or_default();
+                    let mut body = c.texts.get(t[2]).cloned().unwrap_or_default();
+                    // `@BASE@` in a file's content stands for the absolute case directory
+                    if let Ok(txt) = std::str::from_utf8(&body) {
+                        if txt.contains("@BASE@") {
+                            body = txt.replace("@BASE@", &c.top.to_string_lossy()).into_bytes();
+                        }
+                    }
                     write_file(&p, &body);
                 }
             }
